@@ -219,7 +219,8 @@ def cases(ctx):
         for _c in range(rng.randrange(1, 7)):
             c = []
             for _m in range(rng.randrange(0, 5)):
-                c.append(hexs(rand_msg(rng, long=rng.random() < 0.8)))
+                h = hexs(rand_msg(rng, long=rng.random() < 0.8))
+                c.append(h if rng.random() < 0.6 else (h.lower() if rng.random() < 0.7 else spec.mixcase(rng, h)))
             calls.append(c)
         op = "ns " + ";".join(",".join(c) if c else "-" for c in calls)
         yield dict(op=op, real=("h:props.C16.ns_run", [calls]), expect=ns_expected(calls), tag="netsource",
